@@ -61,23 +61,65 @@ typedef struct {                     /* HermEigsBase / GenEigsBase */
 
 HB = "HermEigsBase.h"
 GB = "GenEigsBase.h"
+AH = "LinAlg/Arnoldi.h"
+FAC_MEMBERS_BASE = ["m_near_0", "m_eps", "m_op", "m_n", "m_m", "m_k", "m_fac_V", "m_fac_H", "m_fac_f", "m_beta"]
 
 SOLVER_MEMBERS = ["m_op", "m_n", "m_nev", "m_ncv", "m_nmatop", "m_niter", "m_fac", "m_ritz_val", "m_ritz_vec",
                   "m_ritz_est", "m_ritz_conv", "m_info"]
 
 
+EXTRA_FIELDS = {"Solver": [], "Fac": []}     # members added to the classes since the struct layouts were written
+
+
+def member_decls(relpath, cls):
+    """[(type text, name)] of the data members declared directly in the class body."""
+    raw, st = X.load(relpath)
+    lo, hi = X.class_body(st, cls)
+    body = st[lo:hi]
+    flat, depth = [], 0
+    for ch in body:
+        if ch == "{":
+            depth += 1
+        elif ch == "}":
+            depth -= 1
+        flat.append(ch if (depth == 0 and ch not in "{}") or ch == "\n" else " ")
+    out = []
+    for stmt in "".join(flat).split(";"):
+        s = " ".join(stmt.split())
+        s = re.sub(r"^(public|private|protected)\s*:\s*", "", s)
+        if not s or s.startswith(("using ", "template", "friend", "static ", "virtual ", "typedef")) or "(" in s.split("=")[0]:
+            continue
+        m = re.match(r"^((?:mutable\s+|const\s+)*[\w:<>,\s\*&]+?)[\s\*&](\w+)\s*(=.*)?$", s)
+        if m:
+            out.append((m.group(1).strip(), m.group(2)))
+    return out
+
+
+SIMPLE_T = {"Index": "Index", "int": "int", "bool": "_Bool", "Scalar": "Scalar", "RealScalar": "Scalar", "long": "long", "unsigned": "unsigned",
+            "std::size_t": "unsigned long", "size_t": "unsigned long"}
+
+
 def check_members(report):
-    got = X.members(HB, "HermEigsBase")
-    want = ["m_op_container"] + SOLVER_MEMBERS
-    if got != want:
-        raise X.ExtractionBreak("HermEigsBase data members changed: %r" % got)
-    got = X.members(GB, "GenEigsBase")
-    if got != SOLVER_MEMBERS:
-        raise X.ExtractionBreak("GenEigsBase data members changed: %r" % got)
-    fm = X.members("LinAlg/Arnoldi.h", "Arnoldi")
-    if fm != ["m_near_0", "m_eps", "m_op", "m_n", "m_m", "m_k", "m_fac_V", "m_fac_H", "m_fac_f", "m_beta"]:
-        raise X.ExtractionBreak("Arnoldi data members changed: %r" % fm)
-    report["members"] = "HermEigsBase/GenEigsBase/Arnoldi member lists as expected"
+    """Known members must still exist; members added since are appended to the C structs when they have a simple scalar
+    type (so extraction keeps working and C06's init-coverage obligation can decide them); anything else is an extraction break."""
+    EXTRA_FIELDS["Solver"] = []
+    EXTRA_FIELDS["Fac"] = []
+    for hdr, cls, want, tgt in ((HB, "HermEigsBase", ["m_op_container"] + SOLVER_MEMBERS, "Solver"), (GB, "GenEigsBase", SOLVER_MEMBERS, "Solver"),
+                                (AH, "Arnoldi", FAC_MEMBERS_BASE, "Fac")):
+        decl = member_decls(hdr, cls)
+        names = [n for _, n in decl]
+        missing = [w for w in want if w not in names]
+        if missing:
+            raise X.ExtractionBreak("%s data members removed/renamed: %r" % (cls, missing))
+        for ty, nm in decl:
+            if nm in want:
+                continue
+            base = re.sub(r"\b(mutable|const)\b", "", ty).strip()
+            if base not in SIMPLE_T:
+                raise X.ExtractionBreak("%s: new data member `%s %s` has a type the C struct generator does not handle" % (cls, ty, nm))
+            if nm not in [n for _, n in EXTRA_FIELDS[tgt]]:
+                EXTRA_FIELDS[tgt].append((SIMPLE_T[base], nm))
+    report["members"] = {"extra_fields": EXTRA_FIELDS}
 
 
 # Class invariant after init() (sizes consistent).  HERM: 1 <= nev < ncv <= n ; GEN: 1 <= nev, nev+2 <= ncv <= n.
@@ -123,7 +165,11 @@ def range_ok(gen):
 
 
 def prelude(gen):
-    return ("#define GEN 1\n" if gen else "") + SKEL_TYPES + range_ok(gen) + \
+    types = SKEL_TYPES
+    for st, anchor in (("Fac", "  Index g_valid_k;"), ("Solver", "  Scalar m_sigma, m_sigmar, m_sigmai;")):
+        extra = "".join("  %s %s;   /* member added to the class (auto-appended) */\n" % (t, n) for t, n in EXTRA_FIELDS[st])
+        types = types.replace(anchor, extra + anchor)
+    return ("#define GEN 1\n" if gen else "") + types + range_ok(gen) + \
         common.enum_defines("Util/SelectionRule.h", "SortRule") + common.enum_defines("Util/CompInfo.h", "CompInfo")
 
 
@@ -194,7 +240,8 @@ def eps23_doc():
 def emit_solver_fn(hdr, cls, name, cname, report, ret_c=None, extra=(), pre=(), loops=None, contract="",
                    maythrow=(), params=None, ordinal=0, params_re=None, members=None, self_type="Solver", pre_body=""):
     f = X.locate(hdr, name, cls=cls, ordinal=ordinal, params_re=params_re)
-    t, R = cgen.emit(f, cname, ret_c=ret_c, self_type=self_type, members=members or SOLVER_MEMBERS, self_name="S",
+    members = list(members or SOLVER_MEMBERS) + [n for _, n in EXTRA_FIELDS["Solver"]]
+    t, R = cgen.emit(f, cname, ret_c=ret_c, self_type=self_type, members=members, self_name="S",
                      extra_rules=list(extra), pre_rules=list(pre), loop_contracts=loops or {}, contract=contract,
                      maythrow=maythrow, param_types=params, pre_body=pre_body)
     report["%s::%s" % (cls, name)] = R.fired
@@ -491,8 +538,16 @@ def f_sort_ritzpair_herm(report):
 # --------------------------------------------------------------------------- Arnoldi / Lanczos (struct Fac, self name F)
 from vlib import eigabs
 
-FAC_MEMBERS = ["m_near_0", "m_eps", "m_op", "m_n", "m_m", "m_k", "m_fac_V", "m_fac_H", "m_fac_f", "m_beta"]
-AH = "LinAlg/Arnoldi.h"
+class _FacMembers(list):
+    """FAC_MEMBERS_BASE plus members added to Arnoldi since (resolved at use time)."""
+    def __iter__(self):
+        return iter(FAC_MEMBERS_BASE + [n for _, n in EXTRA_FIELDS["Fac"]])
+
+    def __len__(self):
+        return len(FAC_MEMBERS_BASE) + len(EXTRA_FIELDS["Fac"])
+
+
+FAC_MEMBERS = _FacMembers()
 LH = "LinAlg/Lanczos.h"
 
 
@@ -1039,7 +1094,10 @@ def f_ctor(gen, report, ordinal=0):
         raise X.ExtractionBreak("%s constructor #%d initialiser list changed: %r" % (cls, ordinal, inits))
     # Arnoldi constructor: m_op(op), m_n(op.rows()), m_m(m), m_k(0)
     fa = X.locate(AH, "Arnoldi", cls="Arnoldi", ordinal=0)
-    if " ".join(fa.inits.split()) != "m_op(op), m_n(op.rows()), m_m(m), m_k(0)" or fa.body.strip():
+    fa_in = " ".join(fa.inits.split())
+    fa_extra = fa_in[len("m_op(op), m_n(op.rows()), m_m(m), m_k(0)"):]
+    if not fa_in.startswith("m_op(op), m_n(op.rows()), m_m(m), m_k(0)") or fa.body.strip() or \
+            not re.match(r"^(?:, (?:%s)\([\w.+-]*\))*$" % "|".join([n for _, n in EXTRA_FIELDS["Fac"]] or ["@"]), fa_extra):
         raise X.ExtractionBreak("Arnoldi constructor changed: %r" % fa.inits)
     # the initialiser list as statements (members are initialised in declaration order, which is this order)
     pre_body = (" S->m_op = op; S->m_n = op->n; S->m_nev = nev; S->m_ncv = (ncv > S->m_n ? S->m_n : ncv); S->m_nmatop = 0; S->m_niter = 0; "
@@ -1444,3 +1502,45 @@ def f_cshift_sort(report):
     report["GenEigsComplexShiftSolver::sort_ritzpair"] = R.fired
     report.setdefault("abstracted_statements", {})["GenEigsComplexShiftSolver::sort_ritzpair"] = stm
     return t, spec
+
+
+
+# --------------------------------------------------------------------------- C06: init() covers every mutable member
+
+def init_coverage(report):
+    """Supporting static obligation for C06 `init.canonical`: every non-const data member of the solver base classes and of
+    Arnoldi is (re)assigned by init() - or is on the short list of members compute() never reads before writing.
+    A member added to a class and forgotten in init() is state that leaks from one run into the next."""
+    from vlib import z3lemma
+    bad = []
+    detail = {}
+    for hdr, cls, fn, pre, allowed in ((AH, "Arnoldi", "init", None, {"m_op": "operator adaptor, bound at construction"}),
+                                       (HB, "HermEigsBase", "init", r"init_resid", {"m_op_container": "owning container of the operator", "m_op": "reference bound at construction",
+                                                                                    "m_fac": "re-initialised through m_fac.init()", "m_info": "written at the end of every compute(), never read by it"}),
+                                       (GB, "GenEigsBase", "init", r"init_resid", {"m_op": "reference bound at construction", "m_fac": "re-initialised through m_fac.init()",
+                                                                                   "m_info": "written at the end of every compute(), never read by it"})):
+        f = X.locate(hdr, fn, cls=cls, params_re=pre)
+        body = f.body
+        cov = {}
+        for ty, nm in member_decls(hdr, cls):
+            if re.search(r"\bconst\b", ty) and "&" not in ty and "*" not in ty:
+                cov[nm] = "const"
+                continue
+            if nm in allowed:
+                cov[nm] = "exempt: " + allowed[nm]
+                if nm == "m_fac" and not re.search(r"\bm_fac\.init\(", body):
+                    bad.append("%s::init no longer calls m_fac.init()" % cls)
+                if nm == "m_info":
+                    cf = X.locate(hdr, "compute", cls=cls)
+                    if re.search(r"\bm_info\b(?!\s*=[^=])", cf.body):
+                        bad.append("%s::compute reads m_info" % cls)
+                continue
+            if re.search(r"\b%s\s*(?:=[^=]|\.resize\(|\.setZero\(\)|\.swap\()" % re.escape(nm), body) or re.search(r"\b%s\([^;]*\)\s*=" % re.escape(nm), body):
+                cov[nm] = "assigned in init()"
+            else:
+                cov[nm] = "NOT re-created by init()"
+                bad.append("%s::%s is not re-created by %s::init()" % (cls, nm, cls))
+        detail[cls] = cov
+    report["init_coverage"] = detail
+    return z3lemma.StaticGroup("init.coverage", ok=not bad, detail="; ".join(bad) or "every mutable data member of Arnoldi, HermEigsBase, GenEigsBase is re-created by init() (or exempt with reason)",
+                               obligation="init() re-creates every mutable data member (no state survives from an earlier run)")
